@@ -48,7 +48,55 @@ Theorem C02_range_emit_le1 : forall (E : Type) (body : E -> list warning) order 
 Proof. exact @range_emit_le1. Qed.
 Print Assumptions C02_range_emit_le1.
 
+(* ---- the sites that were only reviewed so far, as instances ---- *)
+(* generic: ANY loop that appends while ranging and sorts the result by a key that is unique among the collected items *)
+Theorem C02_collect_sort_det : forall (E A : Type) (key : A -> N) (f : E -> list A) order order',
+  Permutation order order' -> NoDup (map key (flat_map f order)) ->
+  collect_sort key f order = collect_sort key f order'.
+Proof. exact @collect_sort_det. Qed.
+Print Assumptions C02_collect_sort_det.
+
+(* newErrorHandler: the supported-values text of the init error (map keys are distinct by construction) *)
+Theorem C02_supported_values_det : forall order order', Permutation order order' -> NoDup order ->
+  supported_values order = supported_values order'.
+Proof. exact supported_values_det. Qed.
+Print Assumptions C02_supported_values_det.
+
+(* analyzer.go init / bindCheckerParams: the observable (sorted) flag listing *)
+Theorem C02_register_flags_det : forall (V : Type) (order order' : list (N * V)), Permutation order order' -> NoDup (map fst order) ->
+  register_flags order = register_flags order'.
+Proof. exact @register_flags_det. Qed.
+Print Assumptions C02_register_flags_det.
+
+(* assignCheckerParams / newGocritic: every parameter cell ends up with the same value whatever the visiting order *)
+Theorem C02_bind_params_det : forall (V : Type) (order order' : list (N * V)) m, Permutation order order' -> NoDup (map fst order) ->
+  forall k, bind_params order m k = bind_params order' m k.
+Proof. exact @bind_params_det. Qed.
+Print Assumptions C02_bind_params_det.
+
+(* addChecker: whether registration panics *)
+Theorem C02_validate_params_det : forall (P : Type) (unsupported : P -> bool) order order', Permutation order order' ->
+  validate_params unsupported order = validate_params unsupported order'.
+Proof. intros P u o o' H. exact (fail_on_det u o o' H). Qed.
+Print Assumptions C02_validate_params_det.
+
 (* ---- obligations re-proved on every run over the regenerated inventory ---- *)
+(* every order-sensitive site of the regenerated inventory is MODELLED (an instance above), not only reviewed ... *)
+Eval vm_compute in (map m_key (filter (fun m => m_sensitive m && negb (let '(f, fn, _) := m_key m in
+   existsb (fun e => let '(f', fn', _) := e in String.eqb f f' && String.eqb fn fn') modelled_map_sites)) map_range_sites)).
+Theorem C02_map_sites_modelled :
+  forallb (fun m => negb (m_sensitive m) || (let '(f, fn, _) := m_key m in
+             existsb (fun e => let '(f', fn', _) := e in String.eqb f f' && String.eqb fn fn') modelled_map_sites)) map_range_sites = true.
+Proof. vm_compute. reflexivity. Qed.
+Print Assumptions C02_map_sites_modelled.
+(* ... and every site whose loop body APPENDS is one of the append-then-sort sites for which C02_collect_sort_det is instantiated
+   (getCheckersInfo: C02_get_checkers_info_det; newErrorHandler: C02_supported_values_det): a new append-in-range loop breaks this *)
+Theorem C02_append_sites_sorted :
+  forallb (fun m => let 'M _ f fn _ _ a _ _ _ := m in negb a || existsb (fun e => String.eqb f (fst e) && String.eqb fn (snd e)) sorted_after_range)
+          map_range_sites = true.
+Proof. vm_compute. reflexivity. Qed.
+Print Assumptions C02_append_sites_sorted.
+
 (* diagnostics for a broken obligation: order-sensitive map ranges that are not (exactly) reviewed *)
 Eval vm_compute in (map m_key (filter (fun m => m_sensitive m && negb (site_reviewed reviewed_map_sites m)) map_range_sites)).
 Theorem C02_map_sites_covered :
